@@ -361,6 +361,8 @@ def _key(case, **kw):
         kw.pop("criterion", None)
     elif fam == "absent":
         k = {"cls": case["cls"], "role": case["role"], "fam": fam}
+    elif fam == "midnight_edge":
+        k = {"cls": case["cls"], "fam": fam}
     else:
         k = {"cls": case["cls"], "role": case["role"], "fam": fam if fam == "tonly" else "main"}
     k.update(kw)
@@ -521,6 +523,20 @@ def absent_cases(tier):
     return out
 
 
+def midnight_edge_cases(tier):
+    """zones whose clock changes at local midnight, with the day that has no 00:00 as the FIRST or the LAST day of the data
+    (stamped 01:00, as localising that date gives)"""
+    out = []
+    for zone, start, n in (("America/Santiago", "2021-09-05", 365), ("America/Santiago", "2021-09-05", 340),
+                           ("America/Havana", "2021-03-14", 365), ("America/Havana", "2021-03-13", 365), ("America/Santiago", "2020-09-06", 364)):
+        for kind in CLASSES:
+            for role in ROLES:
+                for entry, feed in entry_feed_pairs(kind, "quick"):
+                    out.append({"fam": "midnight_edge", "cls": kind, "role": role, "fuel": "electric", "entry": entry, "feed": feed,
+                                "N": n, "m": 0, "what": "none", "place": "interior", "zone": zone, "start": start})
+    return out
+
+
 def dst_cases(tier):
     out = []
     zones = ["America/Chicago"] if tier == "quick" else ["America/Chicago", "Australia/Sydney"]
@@ -668,7 +684,7 @@ def utcform_cases(tier):
 
 
 FAMILIES = [("thresholds grid", grid_cases), ("value defects", value_cases), ("DST zones", dst_cases),
-            ("per-month coverage", month_cases), ("gaps as absent rows", absent_cases), ("empty columns", nodata_cases),
+            ("per-month coverage", month_cases), ("gaps as absent rows", absent_cases), ("no-midnight day at the edge of the data", midnight_edge_cases), ("empty columns", nodata_cases),
             ("temperature-only reporting", tonly_cases), ("billing NaN reads", bgap_cases),
             ("UTC spellings / datetime column", utcform_cases)]
 
